@@ -154,9 +154,42 @@ def interpreter_stream(ctx):
         ctx.count('separate-interpreters')
 
 
+def method_spelling_stream(ctx):
+    """compute_method may be given as the enum or as a string ('eigen'): the placement constraints are the same for both.
+    Pre-divided eigenvalue products need co-located factors; a configuration without them is either rejected (ValueError,
+    as for the enum) or, if the constructor accepts it, yields the gradients of the co-located placement."""
+    rng = ctx.rng
+    for world, k in ((2, 2), (4, 2), (4, 4)):
+        base = kfacsim.Config(rng, world=world, k=k, colocate=True, method='eigen', prediv=True, nest=False, inv32=False, fac32=False)
+        base.arch = [('lin', 3, 3, True), ('lin', 3, 2, True), ('lin', 2, 2, False)]
+        base.hyper['kl_clip'] = None
+        base.ops = (['f1'] * base.accum + ['s']) * 2
+        bad = copy.copy(base)
+        bad.colocate = False                     # (kfacsim passes compute_method as the string 'eigen')
+        r_bad = kfacsim.run_real(bad, sched_seed=ctx.seed + world)
+        f = kfacsim.run_failed(r_bad)
+        case = dict(bad.describe(), stream='compute_method-as-string')
+        if f:
+            if 'colocate_factors must be True' not in str(f):
+                ctx.fail(f'non-co-located factors with pre-divided eigenvalues: {f}', case, 'method-string-run-failed')
+            ctx.count('method-string-rejected')
+        else:
+            r_ok = kfacsim.run_real(base, sched_seed=ctx.seed + world)
+            g0, g1 = grads_of(r_ok), grads_of(r_bad)
+            worst = max(kfacsim.relerr(g1[si][r][l], g0[si][0][l]) for si in range(len(g0)) for r in range(world) for l in range(len(g0[si][0])))
+            if worst > 1e-6:
+                ctx.fail(f"compute_method='eigen' (string) with compute_eigenvalue_outer_product=True and colocate_factors=False is accepted by the "
+                         f'constructor (the enum spelling raises ValueError) and gives gradients that differ by {worst:.2e} from the co-located placement',
+                         case, 'method-string-bypasses-colocation-guard')
+            ctx.count('method-string-accepted')
+        ctx.evaluations += 1
+        ctx.case(('method-spelling', world, k), nontrivial=True, sample=case)
+
+
 def run(ctx):
     lowprec_stream(ctx)
     interpreter_stream(ctx)
+    method_spelling_stream(ctx)
     rng = ctx.rng
     nbase = ctx.budget(14, 120)
     for b in range(nbase):
